@@ -61,7 +61,7 @@ def summarize(crate, path, ck=None, closure=False):
     b = crate.body(path)
     if b is None:
         return None, None
-    ps = pathsum.PathSum(enums_of(crate))
+    ps = pathsum.PathSum(enums_of(crate), inline_helpers(crate))
     v = hir.async_full(b["value"])
     params = b["params"]
     if closure:
@@ -77,6 +77,29 @@ def summarize(crate, path, ck=None, closure=False):
         ck.fn(path)
         ck.analysed["paths"] += len(exits)
     return exits, ps
+
+
+_inl = {}
+
+
+def inline_helpers(crate):
+    """Small local helper functions of the parser module that are evaluated in place by pathsum:
+    non-async free functions / inherent methods under microscpi::parser:: that are neither parsers
+    (return ParseResult) nor parser factories (return impl Fn)."""
+    key = id(crate)
+    if key in _inl:
+        return _inl[key]
+    out = {}
+    for b in crate.facts["bodies"]:
+        d = b["def"]
+        if b["kind"] not in ("Fn", "AssocFn") or not d.startswith("microscpi::parser::") or "::{" in d or b.get("trait") or b.get("is_async"):
+            continue
+        ret = b.get("ret", "")
+        if ret.startswith("core::result::Result<(&") or ret.startswith("impl ") or ret == "bool":
+            continue
+        out[hir.base_path(d)] = b
+    _inl[key] = out
+    return out
 
 
 def returned_closure(v):
